@@ -8,8 +8,11 @@ the model uses
   pion/stun numbers the classes `ClassRequest = 0`, `ClassIndication = 1`, `ClassSuccessResponse = 2`,
   `ClassErrorResponse = 3` (stun/v3 message.go) and `MethodBinding = 0x001`; the model's `Msg.cls` /
   `Msg.method` use the same numbers, so the gate of `Agent.handleInbound` is literally this predicate.
-* `responseSymmetric` (selection.go): same network type ∧ same canonical address; the model's
-  `pd.net == l.net && pd.dest == src`.
+* `responseSymmetric` (selection.go): same network type ∧ the response's source is the request's destination
+  ∧ (the request recorded no source ∨ the local candidate the response arrived on has the request's source
+  address).  `sendBindingRequest` records the source of every request (`hasSource = true`; the zero value only
+  occurs in hand-built `bindingRequest` literals of the in-package tests), which gives the model's
+  `pd.net == l.net && pd.dest == src && pd.src == l.addr` (`src` = source of the response).
 -/
 namespace IceTie.AgentInbound
 open IceModel.AgentCore
@@ -39,7 +42,21 @@ theorem gate_eq_code (m : Msg) (method : UInt16) (cls : UInt8) (hm : method.toNa
     (m.method == 1 && (m.cls == 2 || m.cls == 0 || m.cls == 1)) = IceGen.canHandleInbound method cls := by
   rw [canHandleInbound_tie, hm, hc]
 
-theorem responseSymmetric_tie (sameNet sameAddr : Bool) :
-    IceGen.responseSymmetric sameNet sameAddr = (sameNet && sameAddr) := rfl
+theorem responseSymmetric_tie (sameNet sameAddr hasSource sameSource : Bool) :
+    IceGen.responseSymmetric sameNet sameAddr hasSource sameSource
+      = (sameNet && sameAddr && (!hasSource || sameSource)) := rfl
+
+/-- with a recorded source (every request sent by `sendBindingRequest`) the code's predicate is the
+three-fold conjunction -/
+theorem responseSymmetric_recorded (sameNet sameAddr sameSource : Bool) :
+    IceGen.responseSymmetric sameNet sameAddr true sameSource = (sameNet && sameAddr && sameSource) := by
+  rw [responseSymmetric_tie, Bool.not_true, Bool.false_or]
+
+/-- … which is literally the test of the model's `handleSuccess` on the consumed pending entry `pd`, the
+local candidate `l` the response arrived on and the response's source address `rsrc` -/
+theorem responseSymmetric_model (pd : Pending) (l : Cand) (rsrc : Nat) :
+    IceGen.responseSymmetric (pd.net == l.net) (pd.dest == rsrc) true (pd.src == l.addr)
+      = (pd.net == l.net && pd.dest == rsrc && pd.src == l.addr) :=
+  responseSymmetric_recorded _ _ _
 
 end IceTie.AgentInbound
